@@ -1,4 +1,4 @@
-use std::ops::Range;
+use std::ops::{Range, RangeInclusive};
 
 use crate::token_tree::Token;
 
@@ -51,7 +51,7 @@ pub(crate) fn named(start: &Token, end: &Token, callback: impl FnMut(&str)) -> R
     let one = &start.text[diff_range.clone()];
     let two = &end.text[diff_range.clone()];
     match (one.parse::<u16>(), two.parse::<u16>()) {
-    (Ok(one), Ok(two)) if one < two => num_range(&start.text, one..two, diff_range, callback),
+    (Ok(one), Ok(two)) if one < two => num_range(&start.text, one..=two, diff_range, callback),
         _ => return Err("range glyphs must differ by a single letter a-Z or A-Z, or by a run of up to three decimal digits".into()),
     };
     Ok(())
@@ -74,7 +74,7 @@ fn alpha_range(start: &str, end: &str, sub_range: Range<usize>, mut out: impl Fn
 
 fn num_range(
     start: &str,
-    sub_range: Range<u16>,
+    sub_range: RangeInclusive<u16>,
     text_range: Range<usize>,
     mut out: impl FnMut(&str),
 ) {
@@ -235,6 +235,14 @@ mod tests {
         for val in ["A.hi", "B.hi", "C.hi", "D.hi", "E.hi"] {
             assert!(map.contains(val));
         }
+    }
+
+    #[test]
+    fn numeric_range_includes_both_ends() {
+        let range = make_range_node(Kind::GlyphName, "g.08", Kind::GlyphName, "g.11");
+        let idents = glyph_range(&range).unwrap();
+        let expected = ["g.08", "g.09", "g.10", "g.11"].map(GlyphIdent::from);
+        assert_eq!(idents, expected);
     }
 
     #[test]
